@@ -8,13 +8,13 @@ Import ListNotations.
 Inductive res (A : Type) :=
 | Ok (a : A)
 | Rej (l : option nat)      (* mypy reports an error (first error; line label when known) *)
-| Unsup.                    (* outside the modelled behaviour (ad-hoc intersections, partial types, ...) *)
+| Unsup (why : nat).        (* outside the modelled behaviour / not certified; `why` is a reason code (notes/C01.md) *)
 Arguments Ok {A} a.
 Arguments Rej {A} l.
-Arguments Unsup {A}.
+Arguments Unsup {A} why.
 
 Definition bind {A B} (r : res A) (f : A -> res B) : res B :=
-  match r with Ok a => f a | Rej l => Rej l | Unsup => Unsup end.
+  match r with Ok a => f a | Rej l => Rej l | Unsup w => Unsup w end.
 
 Definition with_label {A} (l : nat) (r : res A) : res A :=
   match r with Rej None => Rej (Some l) | _ => r end.
@@ -130,11 +130,11 @@ Definition disjoint (P : prog) (i K : ty) : bool :=
 
 Definition narrow_isinst (P : prog) (sm : bool) (t : ty) (k : cref) : res (ty * ty) :=
   let K := ty_of_cref k in
-  if sm && negb (forallb (fun i => is_subtype P i K || is_subtype P K i || disjoint P i K) (items t)) then Unsup else
+  if sm && negb (forallb (fun i => is_subtype P i K || is_subtype P K i || disjoint P i K) (items t)) then Unsup 1 else
   let yes := mk_union P (flat_map (yes_item P K) (items t)) in
   let no := mk_union P (flat_map (no_item P K) (items t)) in
   if is_never yes
-  then if forallb instance_like (items t) && negb (is_never t) then Unsup (* ad-hoc intersection *)
+  then if forallb instance_like (items t) && negb (is_never t) then Unsup 2 (* ad-hoc intersection *)
        else Ok (TNever, t)
   else Ok (yes, no).
 
@@ -223,7 +223,7 @@ Definition binop_ty (P : prog) (op : binop) (t1 t2 : ty) : res ty :=
   | BAdd => if i1 && i2 then Ok TInt else if s1 && s2 then Ok TStr else Rej None
   | BSub => if i1 && i2 then Ok TInt else Rej None
   | BMul => if i1 && i2 then Ok TInt else if (s1 && i2) || (i1 && s2) then Ok TStr else Rej None
-  | BEq => if (i1 && i2) || (s1 && s2) then Ok TBool else Unsup   (* equality narrowing is not modelled *)
+  | BEq => if (i1 && i2) || (s1 && s2) then Ok TBool else Unsup 3   (* equality narrowing is not modelled *)
   | BLt => if (i1 && i2) || (s1 && s2) then Ok TBool else Rej None
   end.
 
@@ -492,7 +492,7 @@ Definition loop_pass (P : prog) (sm : bool) (pass : passfn) (d : decls) (V : fra
     | (d', E, J, em) =>
         let o2 := Some V :: map Some (cnt J) ++ [E] in
         let mV := merge P V o2 in
-        if sm && negb (merge_cert P mV o2) then Unsup
+        if sm && negb (merge_cert P mV o2) then Unsup 6
         else Ok (d', unwrap_frame mV, J, em, changed P d' V (unwrap_frame mV))
     end).
 
@@ -518,12 +518,12 @@ Definition iter_item_ty (P : prog) (rng : bool) (te : ty) : res ty :=
   else match te with
        | TTuple (t0 :: ts) =>
            match mk_union P (t0 :: ts) with
-           | TUnion _ => Unsup                (* mypy joins the items (possibly to `object`) *)
+           | TUnion _ => Unsup 9                (* mypy joins the items (possibly to `object`) *)
            | t => Ok t
            end
-       | TTuple [] => Unsup
-       | TStr => Unsup
-       | TUnion _ => Unsup
+       | TTuple [] => Unsup 9
+       | TStr => Unsup 9
+       | TUnion _ => Unsup 9
        | _ => Rej None                         (* not iterable *)
        end.
 
@@ -545,7 +545,7 @@ Definition check_loop_tail (P : prog) (strict : bool) (ret : ty) (fr : frame) (d
                   then Ok ({| decl := decl (fst re); cur := mg |},
                            {| brk := brk (snd re); cnt := cnt (snd re); exc := exc J2 ++ exc (snd re);
                               anns := combine_passes (aps ++ [anns J2]) ++ anns (snd re) |})
-                  else Unsup)
+                  else Unsup 7)
             end)
         else
           let after := if use_exit_map then push_map (Some V') em true else Some V' in
@@ -586,19 +586,19 @@ Fixpoint check_stmt (P : prog) (strict : bool) (ret : ty) (st : cst) (s : stmt) 
           | Some dt =>
               if is_subtype P te dt
               then Ok ({| decl := d; cur := Some (update fr x (te, true)) |}, jexc (update fr x (te, true)) (top_reveal P strict d fr e))
-              else if is_none_lit e then Unsup else Rej None
-          | None => Unsup          (* bound only in code the checker skipped *)
+              else if is_none_lit e then Unsup 4 else Rej None
+          | None => Unsup 5          (* bound only in code the checker skipped *)
           end)
     | SDef x e =>
         (* checker.infer_variable_type: the defining assignment (re-)infers the declared type on every visit *)
         bind (infer P strict d fr e) (fun xe =>
           let te := fst xe in
           let a := top_reveal P strict d fr e in
-          if is_none_ty te || is_never te then Unsup      (* partial types *)
+          if is_none_ty te || is_never te then Unsup 4      (* partial types *)
           else match lookup d x with
                | None => Ok ({| decl := d ++ [(x, te)]; cur := Some (remove fr x) |}, jexc (remove fr x) a)
                | Some dt =>
-                   if strict then (if ty_same P te dt then Ok ({| decl := d; cur := Some (remove fr x) |}, jexc (remove fr x) a) else Unsup)
+                   if strict then (if ty_same P te dt then Ok ({| decl := d; cur := Some (remove fr x) |}, jexc (remove fr x) a) else Unsup 8)
                    else Ok ({| decl := set_decl d x te; cur := Some (remove fr x) |}, jexc (remove fr x) a)
                end)
     | SIf c s1 s2 =>
@@ -607,7 +607,7 @@ Fixpoint check_stmt (P : prog) (strict : bool) (ret : ty) (st : cst) (s : stmt) 
             bind (check_stmt P strict ret {| decl := decl (fst r1); cur := push_map (Some fr) (snd (snd xc)) false |} s2) (fun r2 =>
               let o := [cur (fst r1); cur (fst r2)] in
               let mg := merge P fr o in
-              if strict && negb (merge_cert P mg o) then Unsup
+              if strict && negb (merge_cert P mg o) then Unsup 6
               else Ok ({| decl := decl (fst r2); cur := mg |}, jcat (snd r1) (snd r2)))))
     | SBreak => Ok ({| decl := d; cur := None |}, {| brk := [fr]; cnt := []; exc := []; anns := [] |})
     | SContinue => Ok ({| decl := d; cur := None |}, {| brk := []; cnt := [fr]; exc := []; anns := [] |})
@@ -626,11 +626,10 @@ Fixpoint check_stmt (P : prog) (strict : bool) (ret : ty) (st : cst) (s : stmt) 
             bind (check_stmt P strict ret {| decl := d0; cur := push_map (Some V) (fst (snd xc)) false |} b) (fun r1 =>
               let o1 := [cur (fst r1); push_map (Some V) (snd (snd xc)) false] in
               let E := merge P V o1 in
-              if strict && negb (merge_cert P E o1) then Unsup
+              if strict && negb (merge_cert P E o1) then Unsup 6
               else Ok (decl (fst r1), E, snd r1, snd (snd xc)))) in
         check_loop_tail P strict ret fr d pass (fun st0 => check_stmt P strict ret st0 els) true
     | SFor x rng e b els =>
-        if strict then Unsup else        (* not certified: see notes (stage 3 covers while / try / raise / break / continue) *)
         bind (infer P strict d fr e) (fun xe =>
           bind (iter_item_ty P rng (fst xe)) (fun it =>
             let pass : passfn := fun d0 V =>
@@ -656,11 +655,10 @@ Fixpoint check_stmt (P : prog) (strict : bool) (ret : ty) (st : cst) (s : stmt) 
           bind (check_stmt P strict ret {| decl := decl (fst rh); cur := me |} els) (fun re =>
           let o := [cur (fst re); hend] in
           let mg := merge P fr o in
-          if strict && negb (merge_cert P mh oh && merge_cert P me oe && merge_cert P mg o) then Unsup
+          if strict && negb (merge_cert P mh oh && merge_cert P me oe && merge_cert P mg o) then Unsup 6
           else Ok ({| decl := decl (fst re); cur := mg |},
                    jcat (snd rb) (jcat (jexc (snd dv) []) (jcat (snd rh) (jcat (match hend with Some f => jexc f [] | None => j0 end) (snd re)))))))))
     | SFinally b fin =>
-        if strict then Unsup else        (* not certified: see notes *)
         bind (check_stmt P strict ret st b) (fun rb =>
           (* abnormal exits: everything that may have been assigned anywhere in the body *)
           let oh := Some fr :: jump_opts (exc (snd rb)) in
@@ -674,7 +672,7 @@ Fixpoint check_stmt (P : prog) (strict : bool) (ret : ty) (st : cst) (s : stmt) 
           bind (check_stmt P strict ret {| decl := decl (fst ra); cur := mn |} fin) (fun rn =>
           if strict && negb (merge_cert P mh oh && merge_cert P ma oa && merge_cert P mn on
                              && match brk (snd rb), cnt (snd rb) with [], [] => true | _, _ => false end)
-          then Unsup
+          then Unsup 10
           else Ok (fst rn,
                    {| brk := brk (snd rb) ++ brk (snd ra) ++ brk (snd rn);
                       cnt := cnt (snd rb) ++ cnt (snd ra) ++ cnt (snd rn);
@@ -855,7 +853,7 @@ Definition check_fun (P : prog) (strict : bool) (self : option id) (fd : fdecl) 
           | None => Rej None
           | Some bound =>
               if negb (forallb (fun x => mem_id x bound) (stmt_reads (f_body fd))) then Rej None else
-              if negb (ubd_ok (map fst ps) (f_body fd)) then Unsup else
+              if negb (ubd_ok (map fst ps) (f_body fd)) then Unsup 11 else
               if negb (jumps_ok false (f_body fd)) then Rej None else      (* break / continue outside a loop *)
               bind (check_stmt P strict (f_ret fd) {| decl := ps; cur := Some [] |} (f_body fd)) (fun r' =>
                 let st' := fst r' in
@@ -966,7 +964,7 @@ Definition fields_present (P : prog) (cd : cdecl) : bool :=
                     end) (c_mro cd).
 
 Definition check_class (P : prog) (strict : bool) (c : id) (cd : cdecl) : res unit :=
-  if negb (fields_present P cd) then Unsup   (* __init__ not initialising an inherited attribute: not MiniPy *)
+  if negb (fields_present P cd) then Unsup 12   (* __init__ not initialising an inherited attribute: not MiniPy *)
   else
   with_label (c_line cd)
     (if distinct (map fst (c_fields cd)) && forallb (fun af => wf_ty P (snd af)) (c_fields cd)
